@@ -170,6 +170,53 @@ Proof.
   - rewrite C, E. apply orb_true_r.
 Qed.
 
+(* the drift setting: the repaired clockDrift satisfies the drift clause of the configuration oracle *)
+Lemma fge_feq_fgt (v : f64) : fge v fzero = true -> feq v fzero = false -> fgt v fzero = true.
+Proof. unfold fge, feq, fgt. destruct (fcmp v fzero) as [[| |]|]; try discriminate; reflexivity. Qed.
+
+Lemma scaled_pos (v : f64) : fgt v fzero = true -> is_finite v = true ->
+  exists w q, scaled v = Some (w, q) /\ 0 < w /\ 0 < q.
+Proof.
+  destruct v as [s|s| |s m e B]; try discriminate.
+  intros H _. destruct s; [cbn in H; discriminate H|].
+    eexists _, _. split; [reflexivity|]. cbn [fst snd].
+    split; [|apply Z.pow_pos_nonneg; lia].
+    apply Z.mul_pos_pos; [lia|apply Z.pow_pos_nonneg; lia].
+Qed.
+
+Lemma drift_model_ok x :
+  match clock_drift x with
+  | None => drift_setting_ok (setting x) true 0 = true
+  | Some d => drift_setting_ok (setting x) false d = true
+  end.
+Proof.
+  unfold clock_drift, drift_setting_ok. set (v := setting x). cbv zeta.
+  destruct (fge v fzero) eqn:G; cbn [negb orb]; [|reflexivity].
+  destruct (feq v fzero) eqn:E; cbn [negb andb].
+  - (* +-0 *)
+    assert (dur_of_seconds v = 0) as ->.
+    { destruct v as [s|s| |s m e B].
+      - destruct s; vm_compute; reflexivity.
+      - destruct s; vm_compute in E; discriminate E.
+      - vm_compute in E. discriminate E.
+      - unfold feq, fcmp in E. cbn in E. destruct s; discriminate E. }
+    reflexivity.
+  - destruct (dur_of_seconds_spec v) as [C Z0].
+    destruct (dur_of_seconds v <=? 0) eqn:L; [|rewrite C; apply Z.leb_gt in L; apply Z.ltb_lt in L; rewrite L; reflexivity].
+    apply Z.leb_le in L. pose proof (fge_feq_fgt v G E) as P.
+    destruct (huge_ns v) eqn:H; [apply orb_true_r|]. rewrite orb_false_r.
+    assert (F : is_finite v = true).
+    { destruct v as [s|s| |s m e B]; try reflexivity; unfold huge_ns in H; cbn in H; discriminate H. }
+    destruct (scaled_pos v P F) as [w [q [S [Wp Qp]]]].
+    apply Z0; [|exact F].
+    unfold huge_ns in H. unfold nanos_close in C. rewrite S in H, C.
+    apply Z.leb_gt in H. rewrite (proj2 (Z.ltb_lt _ _) H) in C. apply Z.leb_le in C.
+    set (d := dur_of_seconds v) in *.
+    destruct (Z.eq_dec d 0) as [D0|D0]; [exact D0|exfalso].
+    assert (d * q <= - q) by nia.
+    rewrite Z.abs_neq in C by lia. rewrite (Z.abs_eq w) in C by lia. change (2^52) with 4503599627370496 in C. lia.
+Qed.
+
 Lemma config_oracle drift ref peer cutoff timeout interval :
   let cfg := sync_config ref peer cutoff timeout interval in
   match clock_drift drift with
@@ -178,13 +225,32 @@ Lemma config_oracle drift ref peer cutoff timeout interval :
                             (c_cutoff cfg) (c_timeout cfg) (c_interval cfg) = true
   end.
 Proof.
-  cbv zeta. unfold clock_drift, C01_config_ok.
-  destruct (flt (setting drift) fzero) eqn:E; [reflexivity|].
-  cbn [Bool.eqb orb andb sync_config c_ref c_peer c_cutoff c_timeout c_interval]. unfold factor_or, same_f.
-  rewrite !Z.eqb_refl, !dur_or_ok. cbn [andb].
-  destruct drift as [x|]; [|vm_compute; reflexivity].
-  cbn [setting]. rewrite (proj1 (dur_of_seconds_spec x)). reflexivity.
+  cbv zeta. unfold C01_config_ok. pose proof (drift_model_ok drift) as D.
+  destruct (clock_drift drift) as [d|]; rewrite D; [|reflexivity].
+  cbn [orb andb sync_config c_ref c_peer c_cutoff c_timeout c_interval]. unfold factor_or, same_f.
+  rewrite !Z.eqb_refl, !dur_or_ok. reflexivity.
 Qed.
+
+(* the clause the sub-nanosecond drift violated: a drift setting that is accepted is 0 / omitted (the documented
+   unknown drift) or arrives as a positive number of ns per s - never as the 0 that stands for "unknown" *)
+Lemma accepted_drift_positive x d : clock_drift x = Some d ->
+  (feq (setting x) fzero = true /\ d = 0) \/ (fgt (setting x) fzero = true /\ 0 < d).
+Proof.
+  unfold clock_drift. cbv zeta. set (v := setting x).
+  destruct (fge v fzero) eqn:G; cbn [negb orb]; [|discriminate].
+  destruct (feq v fzero) eqn:E; cbn [negb andb].
+  - intros H. inversion H. left. split; [reflexivity|].
+    pose proof (drift_model_ok x) as D. unfold clock_drift in D. cbv zeta in D. fold v in D.
+    rewrite G, E in D. cbn [negb orb andb] in D. unfold drift_setting_ok in D. rewrite G, E in D. cbn in D.
+    apply Z.eqb_eq in D. exact D.
+  - destruct (dur_of_seconds v <=? 0) eqn:L; [discriminate|]. intros H. inversion H. subst d.
+    right. split; [apply fge_feq_fgt; assumption|apply Z.leb_gt in L; exact L].
+Qed.
+
+(* the reviewer's setting: clock_drift = 5e-10 (0.5 ns/s) is refused; NaN is refused *)
+Lemma sub_ns_drift_refused :
+  clock_drift (Some (f_of_bits 4467902934002620053)) = None /\ clock_drift (Some (f_of_bits 9221120237041090560)) = None.
+Proof. vm_compute. split; reflexivity. Qed.
 
 (* nothing configured: the documented defaults 1.25 / 2.5 / 50 us / 500 ms / 1 s, which sync.Run accepts;
    the drift is clocks.UnknownDrift = 0 *)
